@@ -12,6 +12,9 @@ if "--tier" in args:
     i = args.index("--tier"); tier = args[i + 1]; del args[i:i + 2]
 if "--seed" in args:
     i = args.index("--seed"); seed = args[i + 1]; del args[i:i + 2]
+record = None
+if "--record" in args:
+    i = args.index("--record"); record = args[i + 1]; del args[i:i + 2]
 patch, checks = os.path.abspath(args[0]), args[1:]
 def sh(c, **k):
     return subprocess.run(c, shell=True, text=True, capture_output=True, **k)
@@ -35,3 +38,13 @@ finally:
         if line.startswith("??"):
             sh(f"rm -rf /repo/{line[3:].strip()}")
 print(json.dumps(results))
+if record:
+    d = os.path.join("/verif/seeded", record)
+    os.makedirs(d, exist_ok=True)
+    f = os.path.join(d, "detection.json")
+    old = json.load(open(f)) if os.path.exists(f) else {"runs": []}
+    head = sh("git -C /verif rev-parse --short HEAD").stdout.strip()
+    old["runs"].append({"verif_commit": head, "tier": tier, "seed": int(seed), "results": results})
+    old["detected_by"] = sorted({c for r in old["runs"] for c, v in r["results"].items() if v["exit"] == 1})
+    old["silent"] = sorted({c for r in old["runs"] for c, v in r["results"].items() if v["exit"] == 0} - set(old["detected_by"]))
+    json.dump(old, open(f, "w"), indent=1)
